@@ -149,7 +149,7 @@ CLAIMS = {
                  "raw socket write exists in live connection.py code and body bytes follow endheaders(); Host/Accept-Encoding are "
                  "suppressed and User-Agent added by case-insensitive presence; SKIP_HEADER elsewhere raises; HTTP/2 name pattern is "
                  "lower-case tchar anchored with \\Z, value pattern rejects NUL/CR/LF anywhere and edge SP/HTAB, both before the append. "
-                 "Declined: byte-level equality of the written request."),
+                 "Declined: byte-level equality of the written request. The URL host cannot carry CR/LF/NUL/SP into the CONNECT line of a tunnelling proxy: the host grammar admits them, so set_tunnel must search a pattern covering them (C10-R8; found F27, repaired)."),
         "note": _TRUST + "http.client's own validators are trusted as read from its source on every run. F9 was repaired.",
         "technique": "static analysis: regex structure analysis of folded patterns, constant folding of character sets, sanitizer-on-every-flow provenance on effect rows (checked term is the emitted term), who-writes-to-socket query",
     },
